@@ -172,12 +172,17 @@ YearFrac(s1, s2, basis) ==
                     IF ~Plain30(p) \/ ~Plain30(q) THEN Open
                     ELSE Rat((q[1] - p[1]) * 360 + (q[2] - p[2]) * 30 + (q[3] - p[3]), 360)
               [] basis = 1 -> \* actual/actual: within one calendar year the length of that year; a period of at most one year that
-                    \* crosses a new year: 366 when it contains a 29 February (its end included), else 365; longer periods: open
+                    \* crosses a new year: 366 when it contains a 29 February (its end included), else 365
                     IF p[1] = q[1] THEN Rat(sb - sa, YearLen(p[1]))
                     ELSE IF q[1] = p[1] + 1 /\ (p[2] > q[2] \/ (p[2] = q[2] /\ p[3] >= q[3])) THEN
                          LET leapIn(y) == YearLen(y) = 366 /\ sa <= YMDToSerial(y, 2, 29) /\ YMDToSerial(y, 2, 29) <= sb
                          IN Rat(sb - sa, IF leapIn(p[1]) \/ leapIn(q[1]) THEN 366 ELSE 365)
-                    ELSE Open
+                    \* longer periods: the days over the AVERAGE length of the calendar years touched, first and last included
+                    \* (Excel's actual/actual as OpenFormula documents it): days * years / (365 * years + leap years among them)
+                    ELSE LET ny == q[1] - p[1] + 1
+                             leaps == Cardinality({y \in p[1]..q[1] : YearLen(y) = 366})
+                         IN IF ny > 400 \/ (sb - sa) > 2000000000 \div ny THEN Open
+                            ELSE Rat((sb - sa) * ny, 365 * ny + leaps)
               [] OTHER -> Open
 
 (* ---------------------------------------------------------------------- *)
